@@ -38,6 +38,7 @@ type vfOMCase struct {
 	Brokers    int          `json:"brokers"`
 	Actions    []vfOMAction `json:"actions"`
 	Delays     map[string][]int `json:"delays,omitempty"`
+	C12        *vfC12Ctl `json:"c12,omitempty"`
 }
 
 type vfOMModel struct {
@@ -193,6 +194,9 @@ func vfRunOMCase(c *vfOMCase, r *vfcore.Rec) *vfcore.Failure {
 	conf.Net.Proxy.Enable = true
 	conf.Net.Proxy.Dialer = sim.net
 	conf.Net.ReadTimeout = time.Second
+	if c.C12 != nil && c.C12.UnreachKind == "silent" {
+		conf.Net.ReadTimeout = 150 * time.Millisecond
+	}
 	conf.Metadata.Retry.Max = 2
 	conf.Metadata.Retry.Backoff = time.Millisecond
 	conf.Metadata.RefreshFrequency = 0
@@ -269,8 +273,10 @@ func vfRunOMCase(c *vfOMCase, r *vfcore.Rec) *vfcore.Failure {
 	}
 	gateN := 0
 	var f *vfcore.Failure
+	stop := newVfStopper(c.C12, sim)
+	defer stop.finish()
 	for ai, a := range c.Actions {
-		if f != nil {
+		if f != nil || stop.stopped() {
 			break
 		}
 		switch a.Op {
@@ -297,9 +303,14 @@ func vfRunOMCase(c *vfOMCase, r *vfcore.Rec) *vfcore.Failure {
 			if !c.AutoCommit {
 				done := make(chan struct{})
 				go func() { om.Commit(); close(done) }()
-				select {
-				case <-done:
-				case <-time.After(vfTq() + 3*time.Second):
+				if !vfWaitQuiescent(sim, func() bool {
+					select {
+					case <-done:
+						return true
+					default:
+						return false
+					}
+				}) {
 					run.hang = "Commit() did not return"
 					f = run.fail("hang", "%s", run.hang)
 				}
@@ -334,9 +345,14 @@ func vfRunOMCase(c *vfOMCase, r *vfcore.Rec) *vfcore.Failure {
 			}
 			sim.release(gate)
 			if done != nil {
-				select {
-				case <-done:
-				case <-time.After(vfTq() + 3*time.Second):
+				if !vfWaitQuiescent(sim, func() bool {
+					select {
+					case <-done:
+						return true
+					default:
+						return false
+					}
+				}) {
 					run.hang = "Commit() did not return"
 					f = run.fail("hang", "%s", run.hang)
 				}
@@ -350,6 +366,24 @@ func vfRunOMCase(c *vfOMCase, r *vfcore.Rec) *vfcore.Failure {
 		sim.releaseHeld()
 		go func() { _ = om.Close() }()
 		return f
+	}
+	if c.C12 != nil {
+		// shutdown scenario (C12): close right here, whatever is in flight; only termination is judged
+		sim.releaseHeld()
+		for _, pom := range poms {
+			pom.AsyncClose()
+		}
+		closed := int32(0)
+		go func() { _ = om.Close(); ewg.Wait(); atomic.StoreInt32(&closed, 1) }()
+		if !vfWaitQuiescent(sim, func() bool { return atomic.LoadInt32(&closed) == 1 }) {
+			return run.fail("hang", "OffsetManager.Close did not return (closed after %d observable events)", vfEventCount(sim))
+		}
+		vfLastOMEvents = vfEventCount(sim)
+		r.Count("c12_events_end", vfEventCount(sim))
+		if stop.stopped() {
+			r.Class("closed-early")
+		}
+		return nil
 	}
 	// final: coordinator accepts from now on
 	sim.clearFaults("offsetCommit")
@@ -369,12 +403,8 @@ func vfRunOMCase(c *vfOMCase, r *vfcore.Rec) *vfcore.Failure {
 	}
 	closed := int32(0)
 	go func() { _ = om.Close(); ewg.Wait(); atomic.StoreInt32(&closed, 1) }()
-	t0 := time.Now()
-	for atomic.LoadInt32(&closed) == 0 {
-		if time.Since(t0) > vfTq()+3*time.Second {
-			return run.fail("hang", "OffsetManager.Close did not return")
-		}
-		time.Sleep(200 * time.Microsecond)
+	if !vfWaitQuiescent(sim, func() bool { return atomic.LoadInt32(&closed) == 1 }) {
+		return run.fail("hang", "OffsetManager.Close did not return")
 	}
 	if f := run.checkCommits(group); f != nil {
 		return f
